@@ -373,6 +373,20 @@ class InterpMixin(object):
         if isinstance(v, tuple) and not hasattr(v, "_fields"):
             return tuple(self.lift(x, memo, depth + 1) for x in v)
         cls = type(v)
+        import threading as _th, queue as _qu
+        if isinstance(v, (_th.Event, _qu.Queue)) or cls is type(_th.Lock()):
+            # a REAL synchronisation object reaching interpreted code (e.g. sitting in a default argument):
+            # one model object per real object, so sharing stays visible
+            from .extmodels import SSync
+            memo2 = self.__dict__.setdefault("_sync_lifted", {})
+            if id(v) not in memo2:
+                if isinstance(v, _th.Event):
+                    memo2[id(v)] = SSync("event", flag=v.is_set())
+                elif isinstance(v, _qu.Queue):
+                    memo2[id(v)] = SSync("queue", items=[self.lift(x) for x in list(v.queue)])
+                else:
+                    memo2[id(v)] = SSync("lock", held=v.locked())
+            return memo2[id(v)]
         if isinstance(v, (Sym, SObj, SExc, type)) or not self.eng.is_repo_class(cls) \
                 or isinstance(v, BaseException) or hasattr(v, "_fields"):
             return v
@@ -483,6 +497,10 @@ class InterpMixin(object):
                 and not (all(self.deep_concrete(a) for a in args)
                          and all(self.deep_concrete(a) for a in kwargs.values()))):
             return self.call_sym_method(recv, fn.__name__, args, kwargs)
+        if isinstance(recv, dict) and fn.__name__ in ("pop", "update", "get", "setdefault") and \
+                (any(isinstance(k, Sym) for k in recv) or any(isinstance(a, Sym) for a in args)
+                 or any(isinstance(a, dict) and any(isinstance(k, Sym) for k in a) for a in args)):
+            return self.dict_sym_method(recv, fn.__name__, args, kwargs)
         if fn in self.CONTAINER_SAFE or (isinstance(recv, (list, dict)) and fn.__name__ in self.CONTAINER_SAFE_METHODS):
             try:
                 return fn(*args, **kwargs)
